@@ -4,7 +4,7 @@
 //! and every intermediate of the specification below 2^31 (TLC integers).  With a fixed
 //! probability it deliberately pairs operands of incompatible shape.
 #![allow(dead_code)]
-use crate::ops::{Meta, OpCall, NREG};
+use crate::ops::{Codec, Meta, OpCall, NREG};
 use rand::rngs::StdRng;
 use rand::Rng;
 
@@ -22,6 +22,8 @@ pub struct Gen {
     pub vec_bias: bool,
     /// also build operands through the native API of the back ends (nat_* constructors; C20)
     pub allow_native: bool,
+    /// the number codec of the current run: restricts the vocabulary to what is exact under it
+    pub mode: Codec,
 }
 
 fn oc(op: &str, a: usize, b: usize, dst: usize, ia: Vec<i64>) -> OpCall {
@@ -30,7 +32,7 @@ fn oc(op: &str, a: usize, b: usize, dst: usize, ia: Vec<i64>) -> OpCall {
 
 impl Gen {
     pub fn new(rng: StdRng, allow_iter: bool, maxdim: usize) -> Gen {
-        Gen { rng, pending: std::collections::VecDeque::new(), allow_iter, maxdim, vec_bias: false, allow_native: false }
+        Gen { rng, pending: std::collections::VecDeque::new(), allow_iter, maxdim, vec_bias: false, allow_native: false, mode: Codec::Plain }
     }
 
     pub fn reset(&mut self) {
@@ -165,6 +167,11 @@ impl Gen {
 
     fn build_vec(&mut self, dst: usize, len: Option<usize>) -> OpCall {
         let n = len.unwrap_or_else(|| self.ru(1, 8));
+        if self.allow_native && self.p(0.3) {
+            let via = self.pick(&["v_nat_reversed", "v_nat_strided", "v_nat_offset", "v_nat_reversed"]);
+            let d = self.data(n);
+            return OpCall::new(via, 0, 0, dst, vec![], d, vec![]);
+        }
         let x = self.rng.gen_range(0.0..1.0);
         if x < 0.7 {
             let d = self.data(n);
@@ -286,7 +293,55 @@ impl Gen {
         Some(self.with_b(meta, oc(op, a, 0, dst, ia), br, bc, bound))
     }
 
+    /// operations whose definition is exact under the codec of the run
+    fn allowed(&self, c: &OpCall) -> bool {
+        const SCALE: &[&str] = &[
+            "from_array", "from_vec", "from_2d_array", "from_2d_vec", "new", "row_vector_from_array", "row_vector_from_vec",
+            "column_vector_from_array", "column_vector_from_vec", "zeros", "fill", "v_from_array", "v_zeros", "v_fill",
+            "nat_row_offset", "nat_col_offset", "nat_inplace", "nat_strided", "nat_reversed", "nat_t_owned", "nat_broadcast",
+            "nat_remove_row", "nat_resize", "v_nat_reversed", "v_nat_strided", "v_nat_offset",
+            "clone", "transpose", "slice", "reshape", "take", "h_stack", "v_stack", "get_row", "to_row_vector", "from_row_vector",
+            "copy_from", "set", "v_clone", "v_take", "v_set", "v_copy_from",
+            "shape", "get", "get_row_as_vec", "get_col_as_vec", "copy_row_as_vec", "copy_col_as_vec", "iter", "min", "max", "argmax",
+            "unique", "v_unique", "v_len", "v_get", "v_to_vec", "eq", "v_eq",
+            // additionally exact under a power-of-two rescaling (linear in the data)
+            "negative", "negative_mut", "abs", "abs_mut", "add", "sub", "add_mut", "sub_mut", "add_scalar", "sub_scalar",
+            "add_scalar_mut", "sub_scalar_mut", "mul_scalar", "mul_scalar_mut", "add_element_mut", "sub_element_mut",
+            "mul_element_mut", "v_add", "v_sub", "v_add_mut", "v_sub_mut", "v_add_scalar", "v_sub_scalar", "v_add_scalar_mut",
+            "v_sub_scalar_mut", "v_mul_scalar", "v_mul_scalar_mut", "v_add_element_mut", "v_sub_element_mut",
+            "v_mul_element_mut", "sum", "norm1", "norm_inf", "norm_ninf", "max_diff", "approximate_eq", "v_approximate_eq",
+            "column_mean", "mean", "div_scalar", "div_scalar_mut", "v_sum", "v_norm1", "v_norm_inf", "v_norm_ninf", "v_mean",
+            "v_div_scalar", "v_div_scalar_mut",
+        ];
+        match self.mode {
+            Codec::Plain => true,
+            Codec::Scale(_) => SCALE.contains(&c.op.as_str()),
+            Codec::Ulp => {
+                let i = SCALE.iter().position(|&x| x == "negative").unwrap();
+                SCALE[..i].contains(&c.op.as_str()) && !matches!(c.op.as_str(), "zeros" | "v_zeros")
+            }
+        }
+    }
+
     pub fn step(&mut self, meta: &[Meta]) -> OpCall {
+        if self.mode == Codec::Plain {
+            return self.step_any(meta);
+        }
+        // rejection sampling: a plan (the returned call and everything it queued) must be exact under the codec
+        loop {
+            let was_pending = !self.pending.is_empty();
+            let c = self.step_any(meta);
+            if was_pending {
+                return c; // part of a plan that was accepted as a whole
+            }
+            if self.allowed(&c) && self.pending.iter().all(|p| self.allowed(p)) {
+                return c;
+            }
+            self.pending.clear();
+        }
+    }
+
+    fn step_any(&mut self, meta: &[Meta]) -> OpCall {
         if let Some(p) = self.pending.pop_front() {
             return p;
         }
@@ -304,6 +359,7 @@ impl Gen {
                 0..=7 => Some(self.build_any()),
                 8..=9 | 98 | 99 if !self.vec_bias || cat < 10 => self.layout_pair(meta),
                 36..=38 => self.reject_vec(meta),
+                39..=41 => self.accessor(meta),
                 10..=24 => self.structural(meta),
                 25..=35 => self.unary_arith(meta),
                 36..=46 => self.binary_elem(meta),
@@ -454,7 +510,12 @@ impl Gen {
         let a = self.pick(&cands);
         let (r, c) = (meta[a].r, meta[a].c);
         let (br, bc) = if compat {
-            (r, c)
+            // the same length, in the same or in the other orientation (a dot product does not depend on it)
+            if self.p(0.35) { (c, r) } else { (r, c) }
+        } else if self.p(0.3) {
+            // different length, other orientation
+            let n = self.other_dim(r * c);
+            if r == 1 { (n, 1) } else { (1, n) }
         } else if r == 1 && (c > 1 || self.p(0.5)) {
             (1, self.other_dim(c))
         } else {
@@ -583,6 +644,24 @@ impl Gen {
                     .collect();
                 Some(OpCall::new(op, a, 0, 0, vec![axis], iv, iw))
             }
+            _ if self.mode == Codec::Plain && self.p(0.4) => {
+                // softmax of a freshly built vector with large arguments: all strongly negative, strongly
+                // positive, or mixed (exp must neither underflow for every entry nor overflow)
+                let n = self.ru(1, 6);
+                let class = self.ru(0, 3);
+                let d: Vec<i64> = (0..n)
+                    .map(|_| match class {
+                        0 => self.ri(-1000, -400),
+                        1 => self.ri(400, 1000),
+                        2 => self.ri(-1000, 1000),
+                        _ => self.ri(-120, -50),
+                    })
+                    .collect();
+                let s = self.any_slot();
+                self.pending.push_back(oc(op, s, 0, 0, vec![]));
+                let (r, c) = if self.p(0.5) { (1, n) } else { (n, 1) };
+                Some(OpCall::new("from_array", 0, 0, s, vec![r as i64, c as i64], d, vec![]))
+            }
             _ => {
                 // softmax: a vector-shaped register if there is one (the statement speaks of vectors)
                 let c: Vec<usize> = self.mats(meta, MED).into_iter().filter(|&i| meta[i].r == 1 || meta[i].c == 1).collect();
@@ -669,7 +748,10 @@ impl Gen {
     /// swaps strides) different memory layouts: A as it is, B built with the transposed shape and then
     /// transposed.  Results must not depend on how either operand is stored.
     fn layout_pair(&mut self, meta: &[Meta]) -> Option<OpCall> {
-        let op = self.pick(&["max_diff", "max_diff", "max_diff", "approximate_eq", "eq", "add", "sub", "mul", "copy_from", "div", "add_mut", "mul_mut"]);
+        let mut op = self.pick(&["max_diff", "max_diff", "max_diff", "approximate_eq", "eq", "add", "sub", "mul", "copy_from", "div", "add_mut", "mul_mut"]);
+        if op == "eq" && self.mode != Codec::Plain {
+            op = "max_diff";
+        }
         let bound = if op.starts_with("mul") { SMALL } else { MED };
         let c: Vec<usize> = self.mats(meta, bound).into_iter().filter(|&i| meta[i].r >= 2 && meta[i].c >= 2).collect();
         if c.is_empty() {
@@ -688,6 +770,82 @@ impl Gen {
         Some(self.build_call(s, meta[a].c, meta[a].r))
     }
 
+    /// Accessors, flattening, reductions and conversions applied to a register whose memory layout is (possibly)
+    /// not the standard one: derived from transpose / column-major / native constructions.
+    fn accessor(&mut self, meta: &[Meta]) -> Option<OpCall> {
+        let dst = self.any_slot();
+        if self.p(0.3) {
+            // vectors taken out of such matrices, or built natively: to_vec, from_row_vector, get, reductions
+            let c: Vec<usize> = self.vecs(meta, MED).into_iter().filter(|&i| meta[i].nat || meta[i].tr).collect();
+            if !c.is_empty() {
+                let a = self.pick(&c);
+                let op = self.pick(&["v_to_vec", "v_to_vec", "from_row_vector", "from_row_vector", "v_get", "v_sum", "v_clone", "v_unique", "v_take", "v_norm1"]);
+                return Some(match op {
+                    "v_get" => oc(op, a, 0, 0, vec![self.ru(1, meta[a].c) as i64]),
+                    "from_row_vector" | "v_clone" => oc(op, a, 0, dst, vec![]),
+                    "v_take" => {
+                        let len = self.ru(1, 5);
+                        let iv: Vec<i64> = (0..len).map(|_| self.ru(1, meta[a].c) as i64).collect();
+                        OpCall::new(op, a, 0, dst, vec![], iv, vec![])
+                    }
+                    _ => oc(op, a, 0, 0, vec![]),
+                });
+            }
+        }
+        let c: Vec<usize> = self.mats(meta, MED).into_iter().filter(|&i| meta[i].nat || meta[i].tr).collect();
+        if c.is_empty() {
+            let a = self.pick_m(meta, ANY)?;
+            return Some(oc("transpose", a, 0, dst, vec![]));
+        }
+        let a = self.pick(&c);
+        let (r, cc) = (meta[a].r, meta[a].c);
+        let op = self.pick(&[
+            "get_row_as_vec", "get_col_as_vec", "copy_row_as_vec", "copy_col_as_vec", "get_row", "to_row_vector", "reshape",
+            "column_mean", "cov", "unique", "sum", "argmax", "get", "clone", "iter", "mean", "take", "slice",
+        ]);
+        Some(match op {
+            "get_row_as_vec" | "copy_row_as_vec" => oc(op, a, 0, 0, vec![self.ru(1, r) as i64]),
+            "get_col_as_vec" | "copy_col_as_vec" => oc(op, a, 0, 0, vec![self.ru(1, cc) as i64]),
+            "get_row" => oc(op, a, 0, dst, vec![self.ru(1, r) as i64]),
+            "to_row_vector" | "clone" => oc(op, a, 0, dst, vec![]),
+            "reshape" => {
+                let n = r * cc;
+                let divs: Vec<usize> = (1..=n).filter(|d| n % d == 0).collect();
+                let nr = self.pick(&divs);
+                oc(op, a, 0, dst, vec![nr as i64, (n / nr) as i64])
+            }
+            "cov" => {
+                if r < 2 || r > 24 || cc > 12 || meta[a].maxabs > 100.0 {
+                    return None;
+                }
+                oc(op, a, 0, 0, vec![])
+            }
+            "iter" => {
+                if !self.allow_iter {
+                    return None;
+                }
+                oc(op, a, 0, 0, vec![])
+            }
+            "get" => oc(op, a, 0, 0, vec![self.ru(1, r) as i64, self.ru(1, cc) as i64]),
+            "mean" => oc(op, a, 0, 0, vec![self.ri(0, 1)]),
+            "take" => {
+                let axis = self.ri(0, 1);
+                let lim = if axis == 0 { r } else { cc };
+                let len = self.ru(1, 5);
+                let iv: Vec<i64> = (0..len).map(|_| self.ru(1, lim) as i64).collect();
+                OpCall::new(op, a, 0, dst, vec![axis], iv, vec![])
+            }
+            "slice" => {
+                let r0 = self.ru(1, r);
+                let r1 = self.ru(r0, r);
+                let c0 = self.ru(1, cc);
+                let c1 = self.ru(c0, cc);
+                oc(op, a, 0, dst, vec![r0 as i64, r1 as i64, c0 as i64, c1 as i64])
+            }
+            _ => oc(op, a, 0, 0, vec![]),
+        })
+    }
+
     fn equality(&mut self, meta: &[Meta]) -> Option<OpCall> {
         if self.p(0.35) {
             return self.equality_same_size(meta);
@@ -703,7 +861,7 @@ impl Gen {
             self.pending.push_back(oc(op, a, s, 0, ia));
             return Some(oc("clone", a, 0, s, vec![]));
         }
-        if x < 0.65 {
+        if x < 0.65 && (self.mode == Codec::Plain || op == "approximate_eq") {
             return Some(self.with_b(meta, oc(op, a, 0, 0, ia), r, c, MED));
         }
         let (br, bc) = if r != c && self.p(0.5) { (c, r) } else if self.p(0.5) { (self.other_dim(r), c) } else { (r, self.other_dim(c)) };
